@@ -239,6 +239,7 @@ def _translate_valid(inc, exc):
             '_validate_exclude': lambda x: x,
             'nodes': lambda cat: pz.SetBV.of(M.nodes(cat), CATS),   # live: the real nodes() run per concrete category
             'all': lambda: pz.SetBV.of(M.all(), CATS),
+            'hierarchy': M.hierarchy,
         }),
         'include': inc, 'exclude': exc,
     }
